@@ -208,6 +208,30 @@ def gen_cases(tier, rng):
                         continue
                     cases.append(frame_case(std_frame(n, cnt % 4),
                                             [idx_step(idx, ddf=ddf, idtype=["int64", "int32", "uint32"][cnt % 3])], n=cnt))
+    # ---- frames filtered / re-indexed by one of THEIR OWN columns (`df.apply_filter(df['k'])`): the argument is a live HDF5 field
+    #      of the frame that is being rewritten, so it must be read once, before any column (itself included) changes; the
+    #      column sits first, in the middle and last in creation order
+    for n in range(1, min(nf, 4) + 1):
+        for bits in itertools.product([0, 1], repeat=n):
+            for pos in (0, 2, 5):
+                for ddf in (None, "d0"):
+                    cnt += 1
+                    cols = std_frame(n, cnt % 4)
+                    fmt = ["int8", "int64", "uint8"][cnt % 3]
+                    cols.insert(pos, col_numeric("k", [b * (1 + cnt % 2) for b in bits], fmt))
+                    st = flt_step([b * (1 + cnt % 2) for b in bits], "num", ddf=ddf, fdtype=fmt)
+                    st["own"] = "k"
+                    cases.append(frame_case(cols, [st], n=cnt, why="own column as filter"))
+    for n in range(1, ni + 1):
+        for idx in itertools.product(range(n), repeat=n):
+            for pos in (0, 2, 5):
+                for ddf in (None, "d0"):
+                    cnt += 1
+                    cols = std_frame(n, cnt % 4)
+                    cols.insert(pos, col_numeric("k", list(idx), "int64"))
+                    st = idx_step(idx, ddf=ddf, idtype="int64")
+                    st["own"] = "k"
+                    cases.append(frame_case(cols, [st], n=cnt, why="own column as index"))
     # ---- fields: every filter / a family of index arrays x backing x write mode (fresh, in place, into a target that is
     #      unwritten / written-empty / of the result's length / longer) x entry point, for every field type.  The source
     #      is read back after every call ("source untouched"), the target's previous content must be replaced.
@@ -521,7 +545,11 @@ def empty_like_col(col):
 
 
 def to_model(case):
-    return {k: v for k, v in case.items() if not k.startswith("_")}
+    m = {k: v for k, v in case.items() if not k.startswith("_")}
+    if "steps" in m:
+        # `own`: the filter / index argument is the frame's own column of that name — for the model it is the list it holds
+        m["steps"] = [{k: v for k, v in st.items() if k != "own"} for st in m["steps"]]
+    return m
 
 
 # ------------------------------------------------------------------------------------------------------------------
@@ -702,9 +730,11 @@ def impl_frame(case):
                 digest = hashlib.sha1((bioa if ds is dsa else biob).getvalue()).hexdigest()
             try:
                 if st["what"] == "filter":
-                    df.apply_filter(mk_array(e, st["flt"], st.get("fdtype", "bool"), st.get("as_field")), ddf)
+                    arg = df[st["own"]] if st.get("own") else mk_array(e, st["flt"], st.get("fdtype", "bool"), st.get("as_field"))
+                    df.apply_filter(arg, ddf)
                 elif st["what"] == "index":
-                    df.apply_index(mk_array(e, st["idx"], st.get("idtype", "int64"), st.get("as_field")), ddf)
+                    arg = df[st["own"]] if st.get("own") else mk_array(e, st["idx"], st.get("idtype", "int64"), st.get("as_field"))
+                    df.apply_index(arg, ddf)
                 else:
                     by = st["by"][0] if st.get("by_str") and len(st["by"]) == 1 else st["by"]
                     if case.get("entry") == "sort_on" and isinstance(by, list) and by and all(b in df for b in by) \
